@@ -1,6 +1,7 @@
 SPECIFICATION Spec
 CONSTANTS
   HistBand = TRUE
+  StrictReassign = FALSE
   MaxSteps = 2
   Rich = FALSE
   Acts = {"tr", "assign", "add_obstacle", "remove_obstacle", "gen", "gen_add", "add_lanelet", "remove_lanelet", "add_sign", "add_light", "remove_sign", "remove_light", "replace", "erase", "cutout", "merge", "update_initial_state", "update_prediction", "set_cycle", "set_offset", "file", "copy", "occ", "check_orig", "find_pos", "find_shape", "state", "light", "by_box", "states_at", "occs_at", "goal"}
